@@ -14,7 +14,7 @@ import pickle
 from vp import core
 from vp.worker import run_segment
 
-FORMS = ["from_import", "import_as", "from_pkg_import_mod", "reexport_via_root"]
+FORMS = ["from_import", "import_as", "from_pkg_import_mod", "reexport_via_root", "local_import_full"]
 EDITS = ["leaf_const", "leaf_var", "na_const", "na_var"]
 
 
@@ -27,6 +27,7 @@ def files_for(R, depth, form, leaf_const=7, leaf_var=3, na_const=5, na_var=1):
     files["/".join(comps) + ".py"] = (
         "from vp import vlog\n\nLV = %d\n\n\ndef leaf_fn():\n    vlog.hit('leaf_fn')\n    return ('leaf', %d, LV)\n" % (leaf_var, leaf_const)
     )
+    local = ""
     if form == "from_import":
         imp, call = "from %s import leaf_fn" % leafmod, "leaf_fn()"
     elif form == "import_as":
@@ -35,11 +36,15 @@ def files_for(R, depth, form, leaf_const=7, leaf_var=3, na_const=5, na_var=1):
         # the root package (accepted or not) re-exports the function; the caller reaches it through the root
         files[R + "/__init__.py"] = "# pkg\nfrom %s import leaf_fn\n" % leafmod
         imp, call = "import %s as rootpkg" % R, "rootpkg.leaf_fn()"
+    elif form == "local_import_full":
+        # the module is imported inside the body of the caller and used by its full dotted name (nothing binds the root
+        # package at module level)
+        imp, call, local = "", "%s.leaf_fn()" % leafmod, "    import %s\n" % leafmod
     else:
         imp, call = "from %s import leaf as lfm" % ".".join(comps[:-1]), "lfm.leaf_fn()"
     files[R + "/top.py"] = (
-        "import dds\nfrom vp import vlog\n%s\nimport %s_na\n\n\ndef K():\n    vlog.hit('K')\n    return ('K', 1, %s, %s_na.na_fn())\n\n\n"
-        "def main():\n    vlog.hit('main')\n    return ('main', dds.keep('/c14/k', K))\n" % (imp, R, call, R)
+        "import dds\nfrom vp import vlog\n%s\nimport %s_na\n\n\ndef K():\n%s    vlog.hit('K')\n    return ('K', 1, %s, %s_na.na_fn())\n\n\n"
+        "def main():\n    vlog.hit('main')\n    return ('main', dds.keep('/c14/k', K))\n" % (imp, R, local, call, R)
     )
     files[R + "_na/__init__.py"] = "NA_VAR = %d\n\n\ndef na_fn():\n    return ('na', %d, NA_VAR)\n" % (na_var, na_const)
     return files, leafmod
@@ -78,7 +83,9 @@ def case_job(arg):
         outs = []
         for files in (f0, f1):
             seg = {"mode": "impl", "root": root, "accept": accept, "store": {"kind": "local", "dir": os.path.join(td, "store")},
-                   "steps": [{"write": files, "how": "import", "modules": [R + ".top"], "entry": {"style": "eval", "module": R + ".top", "func": "main", "args_src": "()"}}]}
+                   # with the function-local form the sub-module has been imported by someone before the analysis runs (dds
+                   # refuses with a DDS error to walk into a sub-module that only the not-yet-executed import statement would load)
+                   "steps": [{"write": files, "how": "import", "modules": ([leafmod] if form == "local_import_full" else []) + [R + ".top"], "entry": {"style": "eval", "module": R + ".top", "func": "main", "args_src": "()"}}]}
             o = core.fork_call(run_segment, seg, timeout=300)
             if isinstance(o, core.JobFailed):
                 rep.inconclusive.append("worker: %r" % (o,))
